@@ -19,7 +19,7 @@ RULE = ('every cell of the layout lattice version x kind x $BYTEORD x range-kind
         '(or any float column); distinct = digest of the whole generated file')
 ASSUMPTIONS = ['rv.fcsgen implements the FCS 2.0/3.0/3.1 list-mode layout correctly (independent of FlowCal.io)',
                'ranges are integers exactly representable as floats']
-MIN_CHECKS = {'quick': 3000, 'thorough': 50000}
+MIN_CHECKS = {'quick': 3000, 'thorough': 400000}
 EXHAUSTIVE = {'quick': False, 'thorough': False}
 TIMEOUT_S = {'quick': 600, 'thorough': 3600}
 
@@ -138,7 +138,7 @@ def run(ctx):
     FlowCal = core.import_flowcal()
     path = os.path.join(ctx.tmpdir, 'c01.fcs')
     cells = list(layouts.lattice())
-    reps = 1 if ctx.tier == 'quick' else 12
+    reps = 1 if ctx.tier == 'quick' else 60
     max_n = 12 if ctx.tier == 'quick' else 40
     # ---- lattice block (exhaustive over categorical dims) -----------------
     ids = [('lat', r, i) for r in range(reps) for i in range(len(cells))]
@@ -151,7 +151,7 @@ def run(ctx):
         ctx.case_done(class_key=cell + (wclass,), nontrivial=nontrivial(spec),
                       distinct_key=core.digest(raw), sample=layouts.describe(spec) if cid[2] % 97 == 0 else None)
     # ---- random layouts with larger shapes -------------------------------
-    nrand = 300 if ctx.tier == 'quick' else 6000
+    nrand = 300 if ctx.tier == 'quick' else 40000
     for cid, rng in ctx.cases([('rnd', i) for i in range(nrand)]):
         cell = cells[int(rng.integers(len(cells)))]
         big = rng.random() < 0.1
@@ -160,7 +160,7 @@ def run(ctx):
         raw = run_case(ctx, FlowCal, cid, spec, path)
         ctx.case_done(class_key=cell + ('rnd',), nontrivial=nontrivial(spec), distinct_key=core.digest(raw))
     # ---- refusal family ----------------------------------------------------
-    nref = 40 if ctx.tier == 'quick' else 400
+    nref = 40 if ctx.tier == 'quick' else 1500
     for kind in REFUSALS:
         for cid, rng in ctx.cases([('ref', kind, i) for i in range(nref)]):
             spec = make_refusal(rng, kind)
